@@ -274,6 +274,10 @@ def main():
             # statements sliced from the current AST no longer stand on their own
             rec["verdict"] = "NOT-ENCODED"
             rec["detail"] = "slice broken: %s in %s: %s" % (type(e).__name__, tb[-1].filename, str(e)[:200])
+        elif type(e).__name__ == "CrossHairInternal":
+            # a failure inside the symbolic executor itself: nothing was decided
+            rec["verdict"] = "UNKNOWN"
+            rec["detail"] = "CrossHair internal error: %s" % str(e)[:300]
         elif (isinstance(e, AssertionError) and str(e).startswith("anchor missing")) or type(e).__name__ in ("AnchorMissing", "RxUnsupported"):
             rec["verdict"] = "NOT-ENCODED"
             rec["detail"] = str(e)[:400]
